@@ -425,7 +425,7 @@ fixed("FX-C08-imported-number", "C08", "b1fce7b", "<v>NaN</v> in an xlsx file be
 open_("F-C07-spill-cycle-first-evaluation", "C07",
       "a reference cycle that is closed through a spill (an array formula whose spill range covers a cell its own input depends on) is only reported as #CIRC! from the second evaluation on: evaluating twice changes values",
       {"nsheets": 1, "cells": [[0, 1, 3, "=-NOT(C6)"], [0, 6, 2, "=A1:B2*2"], [0, 2, 1, "=SUM(SEQUENCE(3))+C1:C2"]], "perm": [2, 1, 0]},
-      sigs=["route-differs|evaluated-twice|arrays"])
+      sigs=["route-differs|evaluated-twice|arrays-in-grid"])
 
 # ---------------------------------------------------------------- C18
 fixed("FX-C18-localized-boolean", "C18", "c32ab20",
